@@ -28,7 +28,7 @@ N = {"quick": 700, "thorough": 9000}
 BUDGET = {"quick": 45, "thorough": 300}
 RULE = "index k -> (keyword, scheme, supply mode, in-between event, URL respelling) by enumeration of the grid then seeded repetition. Non-trivial = the keyword was accepted; distinct = distinct (keyword, scheme, mode, event, respelling)."
 ASSUMPTIONS = ["a keyword that raises TypeError (at pool creation or at the first request, before any I/O) counts as rejected"]
-REQUIRED_PROBES = {"quick": ["separate_pools", "unset_vs_falsy", "rejected_keyword", "same_context_shared", "respelled_url_shared", "defaults_unchanged", "evicted_then_A", "seam:source_address", "seam:timeout", "seam:tls"], "thorough": ["separate_pools", "unset_vs_falsy", "rejected_keyword", "same_context_shared", "respelled_url_shared", "defaults_unchanged", "evicted_then_A", "seam:source_address", "seam:timeout", "seam:tls"]}
+REQUIRED_PROBES = {"quick": ["separate_pools", "unset_vs_falsy", "via_proxy_manager", "rejected_keyword", "same_context_shared", "respelled_url_shared", "defaults_unchanged", "evicted_then_A", "seam:source_address", "seam:timeout", "seam:tls"], "thorough": ["separate_pools", "unset_vs_falsy", "via_proxy_manager", "rejected_keyword", "same_context_shared", "respelled_url_shared", "defaults_unchanged", "evicted_then_A", "seam:source_address", "seam:timeout", "seam:tls"]}
 
 
 def keywords():
@@ -119,6 +119,8 @@ EVENTS = ["none", "evict", "idle_close", "respell"]
 def cases(seed, k, tier):
     ks = keywords()
     grid = [(kw, scheme, mode, ev, None) for kw in ks for scheme in ("http", "https") for mode in MODES for ev in EVENTS]
+    # the same contexts, supplied as pool_kwargs through a ProxyManager whose forwarded (plain http) destinations all end at the proxy
+    grid += [(kw, "http", "proxy_pool_kwargs", ev, None) for kw in ks if not kw.startswith("_proxy") for ev in EVENTS]
     # contexts that differ by "keyword not given" vs "keyword given with a falsy but meaningful value"
     grid += [(kw, scheme, mode, ev, i) for kw in FALSY_KWS if kw in ks for i in range(len(falsy_values(kw))) for scheme in ("http", "https") for mode in MODES for ev in EVENTS]
     rng = rng_for(seed, ID, k)
@@ -186,7 +188,13 @@ def run(sc: dict) -> Result:
                 log.append((label, locals().get("pool"), ("exc", e)))
 
         try:
-            if mode == "pool_kwargs":
+            if mode == "proxy_pool_kwargs":
+                res.probes["via_proxy_manager"] += 1
+                pm = urllib3.ProxyManager("http://proxy.test:3128", num_pools=1 if ev == "evict" else 10, **({"timeout": 3.0} if kw != "timeout" else {}))
+                defaults_before = copy.copy(pm.connection_pool_kw)
+                do(pm, "A", A, True)
+                do(pm, "B", B_, True)
+            elif mode == "pool_kwargs":
                 pm = urllib3.PoolManager(num_pools=1 if ev == "evict" else 10, timeout=3.0 if kw != "timeout" else None, **common) if kw != "timeout" else urllib3.PoolManager(num_pools=1 if ev == "evict" else 10, **common)
                 defaults_before = copy.copy(pm.connection_pool_kw)
                 do(pm, "A", A, True)
@@ -201,13 +209,13 @@ def run(sc: dict) -> Result:
             pm = None
         if pm is not None:
             if ev == "evict":
-                do(pm, "X", A, mode == "pool_kwargs", url_base=f"{scheme}://other.test")
+                do(pm, "X", A, mode != "ctor_default_A", url_base=f"{scheme}://other.test")
             elif ev == "idle_close":
                 w.advance(100.0)
             if ev == "respell":
-                do(pm, "A", A, mode == "pool_kwargs", url_base=respelled)
+                do(pm, "A", A, mode != "ctor_default_A", url_base=respelled)
             else:
-                do(pm, "A", A, mode == "pool_kwargs")
+                do(pm, "A", A, mode != "ctor_default_A")
             # ---- manager defaults untouched by per-request overrides
             after = pm.connection_pool_kw
             if set(after) != set(defaults_before) or any(after[k_] is not defaults_before[k_] and after[k_] != defaults_before[k_] for k_ in after):
@@ -284,7 +292,7 @@ def check_seams(kw, A, B_, w, res):
         elif kw == "timeout":
             res.probes["seam:timeout"] += 1
             tos = [t for op, t in s.timeouts_at_io if op == "connect"]
-            if tos and abs(tos[0] - float(want)) > 1e-9:
+            if tos and (tos[0] is None or abs(tos[0] - float(want)) > 1e-9):
                 res.bad("setting_not_applied", f"socket {s.sid} (context {lab}) connected with timeout {tos[0]}, context says {want}")
     for t in w.tls_log:
         if t[0] != "client_wrap":
